@@ -19,6 +19,7 @@ The model is tied to the real `WriteTaskState` + real `UplinkReporter`/`UplinkRe
 (snapshots compared, and checked against a reference link set by the monitor).
 -/
 import SwimVerif.Proofs.LinksWTCount
+import SwimVerif.Model.Counters
 
 set_option linter.unusedVariables false
 namespace SwimVerif.WT
@@ -214,3 +215,40 @@ example : wtRouted { links := { hasAgg := true } } exRun = 6 ∧ wtSnapAgg { lin
   decide
 
 end SwimVerif.WT
+
+namespace SwimVerif.Ctr
+
+theorem step_conserved (s : St) (e : Ev) (h : s.taken + s.n = s.added) :
+    (step s e).taken + (step s e).n = (step s e).added := by
+  cases e with
+  | add m => simp only [step]; omega
+  | load => exact h
+  | cas sp =>
+    simp only [step]
+    split
+    · exact h
+    · rename_i c hc
+      split
+      · rename_i hn; simp only []; omega
+      · exact h
+
+/-- **No count is lost or reported twice under any interleaving**: for every interleaving of the counting threads'
+atomic increments with the snapshot thread's `load` / `compare_exchange_weak` steps (including spurious failures),
+the counts handed out by completed snapshots plus what is still in the counter equal everything counted. -/
+theorem C20_counter_interleaving_conserved (evs : List Ev) :
+    (run {} evs).taken + (run {} evs).n = (run {} evs).added := by
+  suffices H : ∀ (s : St), s.taken + s.n = s.added → (run s evs).taken + (run s evs).n = (run s evs).added from
+    H {} rfl
+  induction evs with
+  | nil => intro s h; exact h
+  | cons e evs ih => intro s h; exact ih _ (step_conserved s e h)
+
+/-- A snapshot returns only what was in the counter when its `compare_exchange` succeeded, and empties it. -/
+theorem C20_snapshot_takes_exactly_the_counter (s : St) (c : Nat) (h : s.loaded = some c) (hn : s.n = c) :
+    (step s (.cas false)).taken = s.taken + s.n ∧ (step s (.cas false)).n = 0 := by
+  simp [step, h, hn]
+
+example : (run {} [.add 2, .load, .add 3, .cas false, .load, .cas false]).taken = 5 := by decide
+example : (run {} [.add 2, .load, .add 3, .cas false]).n = 5 := by decide
+
+end SwimVerif.Ctr
